@@ -61,7 +61,7 @@ package constructor
 
 // C02: the reported violations are exactly those the property demands, in every declaration of every analysed file.
 //@ func CheckConstructor
-//@   props C02 C12 C14 C10
+//@   props C02 C12 C14 C10 C13
 //@   assigns nothing
 //@   loop 1 frame
 //@   loop 2 frame
